@@ -115,7 +115,11 @@ func buildOpModel(c *core.Ctx) *opModel {
 			}
 		case types.Identical(k.Type(), nodeType.Type()):
 			if name != "BeforeChild" && name != "AfterChild" {
-				m.ntName[v] = name
+				// node KINDS are the Nt… constants; other NodeType-typed constants (named differences
+				// between families, masks) are values, not kinds: they never name a value a kind already has
+				if strings.HasPrefix(name, "Nt") {
+					m.ntName[v] = name
+				}
 				m.ntByNm[name] = v
 			}
 		}
